@@ -46,9 +46,9 @@ def stack_of(a, b, c, n):
 @ob(
     "C03",
     "O2-pop-step",
-    pre=["0 <= n <= 3"],
+    pre=["0 <= n <= 3", "-2 <= a <= 11 and -2 <= b <= 11 and -2 <= c <= 11"],
     post="_ == ((stack_of(a, b, c, n)[-1] if n > 0 else None), stack_of(a, b, c, n)[:-1])",
-    bound="stack pre-state of length n<=3 with symbolic int items; one line evaluating '@v = pop(\"s\")'",
+    bound="stack pre-state of length n<=3 with symbolic int items -2..11; one line evaluating '@v = pop(\"s\")'",
     encodes=ENC_RUN + ["csvpath/matching/functions/variables/pushpop.py:Pop._produce_value"],
     tiers={"quick": {"timeout": 300}},
 )
